@@ -98,6 +98,10 @@ pub trait Format: Sync {
     fn seeds(&self) -> Vec<Seed>;
     /// run every entry point of the format on `input` (inside the sandbox child)
     fn run(&self, seed: &Seed, input: &[u8], rec: &mut Recorder, scratch: &std::path::Path);
+    /// sites of the 3-deviation class of a seed (indices into `seed.sites`); none for most formats / seeds
+    fn triple_sites(&self, _seed: &Seed, _thorough: bool) -> Vec<usize> {
+        vec![]
+    }
     /// false where no entry point reads through a counting reader (path / slice APIs)
     fn measures_consumption(&self) -> bool {
         true
@@ -388,7 +392,7 @@ impl FormatSpace {
         seeds.sort_by_key(|s| s.bytes.len());
         let b = match tier {
             Tier::Quick => Budget { sites: 120, vals: (0..VALS.len()).collect(), chunk_ops: 24, pair_sites: 0, pair_seeds: 0, near_dist: 0, near_sites: 0 },
-            Tier::Thorough => Budget { sites: usize::MAX / 4, vals: (0..VALS_T.len()).collect(), chunk_ops: 600, pair_sites: PAIR_SITES_T, pair_seeds: usize::MAX, near_dist: 3, near_sites: 160 },
+            Tier::Thorough => Budget { sites: usize::MAX / 4, vals: (0..if fmt.name() == "mpq" { VALS_T.len() } else { VALS_T_COMMON }).collect(), chunk_ops: 600, pair_sites: PAIR_SITES_T, pair_seeds: usize::MAX, near_dist: 3, near_sites: 160 },
         };
         // the seeds with the most header-level sites carry the 2-deviation class
         let mut by_hdr: Vec<usize> = (0..seeds.len()).collect();
@@ -426,6 +430,8 @@ impl FormatSpace {
                 near_pairs,
                 near_vals: if s.tier2 { VALS2.to_vec() } else { VALS2N.to_vec() },
                 appends: if tier == Tier::Thorough { APPENDS.len() } else { 0 },
+                triple_sites: fmt.triple_sites(s, tier == Tier::Thorough),
+                triple_vals: if tier == Tier::Thorough { VALS3_T.to_vec() } else { VALS3_Q.to_vec() },
             });
         }
         let mut cum = vec![0u64];
@@ -464,6 +470,12 @@ impl FormatSpace {
     }
     fn axes(&self) -> Value {
         let mut v = self.axes_base();
+        let triples = self.spaces.iter().map(|s| s.triple_cases()).sum::<u64>();
+        if triples > 0 {
+            let m = v.as_object_mut().unwrap();
+            m.insert("triple_cases".into(), json!(triples));
+            m.insert("triple_sites_per_seed".into(), json!(self.seeds.iter().zip(&self.spaces).filter(|(_, x)| !x.triple_sites.is_empty()).map(|(s, x)| format!("{}: {} sites, {} values", s.name, x.triple_sites.len(), x.triple_vals.len())).collect::<Vec<_>>()));
+        }
         if thorough() {
             let m = v.as_object_mut().unwrap();
             m.insert("near_pair_cases".into(), json!(self.spaces.iter().map(|s| s.near_cases()).sum::<u64>()));
@@ -489,9 +501,9 @@ impl FormatSpace {
 
 /// deviation class switches read by the formats (set identically in the worker and in the symbolizer server)
 fn set_class_flags(s: &Seed, d: &Dev) {
-    LIGHT.store(matches!(d, Dev::Field2 { .. }), std::sync::atomic::Ordering::Relaxed);
+    LIGHT.store(matches!(d, Dev::Field2 { .. } | Dev::Field3 { .. }), std::sync::atomic::Ordering::Relaxed);
     let heavy = match d {
-        Dev::Field2 { .. } | Dev::Prefix(_) => false,
+        Dev::Field2 { .. } | Dev::Field3 { .. } | Dev::Prefix(_) => false,
         Dev::Field { site, .. } => s.sites[*site].header,
         _ => true,
     };
@@ -689,6 +701,8 @@ fn repro() {
         ("m2-compquat-negate", "m2", vec!["wotlk_rich", "body+0x230@0x230", "\"value\":\"rest+1\""]),
         ("mpq-empty-crc-unit", "mpq", vec!["v1_adpcm_mono_zlib_crc", "block_table[0].compressed_size", "\"kind\":\"field\"", "\"value\":\"0\""]),
         ("mpq-table-pos-overflow", "mpq", vec!["nested_userdata_v4_zlib_crc_attrs", "field2", "header.bet_table_pos.lo", "header.bet_table_pos.hi", "\"value\":\"2^32-1\"", "\"value2\":\"2^32-1\""]),
+        ("mpq-patch-sector-underflow", "mpq", vec!["ref_v1_patch_entry_bsd0", "block_table[0].flags", "\"value\":\"2^20\""]),
+        ("mpq-block-count-triple", "mpq", vec!["v2_bzip2_encrypted_shift1", "field3", "header.archive_size", "\"value\":\"2^32-1\"", "header.block_table_entries", "\"value2\":\"2^26\"", "header.hi_block_table_pos.lo", "\"value3\":\"2^32-1\""]),
         ("blp-zune-jpeg-sof", "blp", vec!["blp2_jpeg_alpha_16x16_mips", "body+0x3d4@0x3d4", "\"value\":\"2^32-1\""]),
     ];
     if rest.len() == 1 && rest[0] == "m2-compquat-negate-direct" {
@@ -811,7 +825,7 @@ fn main() {
             for (k, x) in sp.spaces.iter().enumerate() {
                 let base = sp.cum[k];
                 let vv = (VALS2.len() * VALS2.len()) as u64;
-                let classes: [(&str, u64); 7] = [
+                let classes: [(&str, u64); 8] = [
                     ("seed", 1),
                     ("prefix", x.prefixes.len() as u64),
                     ("field", x.field_cases()),
@@ -819,6 +833,7 @@ fn main() {
                     ("pair", x.pairs() * vv),
                     ("near", x.near_cases()),
                     ("append", x.appends as u64),
+                    ("triple", x.triple_cases()),
                 ];
                 let mut off = 0u64;
                 let mut seed_total = 0.0;
@@ -901,6 +916,8 @@ fn main() {
         table entries, for MPQ also the plaintext dwords inside the encrypted hash/block/HET/BET tables: decrypt, patch, re-encrypt) x 10 values {0,1,2^31-1,2^31,2^32-1,field-1,field+1,file_len,file_len-1,file_len+1} \
         (quick: header-level sites all, the rest strided to 120 sites per seed; thorough: up to 1600 per seed); delete/duplicate/swap-with-next of every chunk (sizes of enclosing chunks kept consistent; quick strided to 24 chunks per seed); \
         thorough only: all pairs of <= 40 header-level sites (strided if a seed has more) x 6x6 values {0,2^32-1,2^31-1,2^31,field+1,file_len} for every seed. \
+        3-field deviations (mpq): all 35 triples of the 7 size/position/count fields of the classic header (archive_size, hash_table_pos, block_table_pos, hash_table_entries, block_table_entries, hi_block_table_pos lo/hi) \
+        of the V2 seed v2_bzip2_encrypted_shift1 x 3x3x3 values {2^26,2^32-1,file_len} (a count between the library's 10^6 entry limit and the 2^28 multiplication overflow, a position/size far beyond the file, the file length). \
         Every case runs all entry points of the format in a forked child under the monitors: no panic, no abort/signal, no stack overflow, return within 50 s (engine watchdog 60 s), \
         no single allocation request and no peak live heap above 256 MiB + 4096 x input_len (requests above the limit are refused by the counting allocator). \
         A dying child is re-run without the call that killed it (up to 2 deaths per case in quick, 4 in thorough) so that the other entry points of the case are still observed. \
@@ -918,6 +935,8 @@ fn main() {
         and per sibling group (top level / children of one container, <= 24 members, strided if larger) every pair of siblings exchanged and every pair deleted; \
         2-field deviations: ALL pairs of <= 40 header-level sites of a primary seed (<= 16 of a tier2 seed; strided if a seed has more) x 6x6 values {0,2^32-1,2^31-1,2^31,field+1,file_len}, \
         plus every pair of header-level sites at distance <= 3 in file order (the count/offset/size couples of one structure) among the first 160 header-level sites that is not in the all-pairs set x 8x8 values {0,1,2^31-1,2^31,2^32-1,field+1,file_len,2^16} (tier2 seeds: the 6x6 grid). \
+        3-field deviations (mpq): ALL triples of the first 8 (V1 seeds: 4 builder-written + the user-data one), 11 (the 4 V2 seeds) or 17 (V4 seed v4_zlib_sectored_crc_attrs_full) dwords of the MPQ header x 6x6x6 values {0,2^26,2^32-1,file_len,field+1,2^31}; \
+        the mpq 1-field ladder additionally has {2^20,2^24,2^26} (counts between the library's entry limits and the 32-bit multiplication overflow), 23 values. \
         Every case runs all entry points of the format in a forked child under the monitors: no panic, no abort/signal, no stack overflow, return within 50 s (engine watchdog 60 s), \
         no single allocation request and no peak live heap above 256 MiB + 4096 x input_len (requests above the limit are refused by the counting allocator). \
         Entry points of this tier beyond those of quick: MPQ header::find_header, MpqHeader::read, HET/BET/hash/hi-block table lookups on the opened archive, PatchChain::extract_files/get_chain_info, MutableArchive::find_file/load_attributes/verify_signature, \
@@ -959,7 +978,8 @@ fn main() {
             "bounds".into(),
             json!({
                 "prefix_lengths": "every length 0..len-1 of every seed",
-                "values_per_field": VALS_T.len(),
+                "values_per_field": {"all formats": VALS_T_COMMON, "mpq": VALS_T.len()},
+                "field_triples_mpq": {"header_dwords": {"V1": 8, "V2": 11, "V4": 17}, "seeds": 10, "value_grid": [VALS3_T.len(), VALS3_T.len(), VALS3_T.len()]},
                 "field_sites": "every located site of every seed (no stride); sites beyond the first 2048 of a seed take the 10 quick values",
                 "huge_seed_prefixes": "seed > 256 KiB: every length in the first 64 KiB and last 4 KiB, every 7th in between",
                 "chunk_edit_kinds": {"delete": 1, "duplicate": 1, "swap_with_next": 1, "payload_resize": RESIZES.len(), "sibling_pair_swap": "all pairs of <= 24 siblings per group", "sibling_pair_delete": "all pairs of <= 24 siblings per group"},
